@@ -454,7 +454,7 @@ def reinsert_rule(ck, F, tcls, prefix):
         z = nodes[zname]
         before = {(nm, w): fr.get(fr.st, n_, w) for nm, n_ in nodes.items() for w in ('left', 'right', 'parent')}
         colours = {nm: fr.color(fr.st, n_) for nm, n_ in nodes.items()}
-        Sx = TreeSym(F, opaque=lambda fid: F.fn.get(fid) is None or contracts.fn_simple(fid) in ('fixup_insert', 'operator()'), max_depth=30, max_paths=400)
+        Sx = TreeSym(F, opaque=lambda fid: F.fn.get(fid) is None or contracts.fn_simple(fid) in ('fixup_insert', 'operator()') or bool((F.fn.get(fid) or {}).get('lambda_call')), max_depth=30, max_paths=400)
         Sx.concrete_loops = True
         try:
             outs = Sx.run(fn['id'], this=fr.tree, args=[('addr', z), ('sym', 'comp')], state=fr.st)
@@ -541,7 +541,7 @@ def descent_check(F, tcls, want=None):
             else:
                 znode = fr.node('new', RED)
                 args = [('addr', znode), cmp_]
-            Sx = TreeSym(F, opaque=lambda fid: F.fn.get(fid) is None or contracts.fn_simple(fid) in ('fixup_insert', 'operator()'), max_depth=30, max_paths=400)
+            Sx = TreeSym(F, opaque=lambda fid: F.fn.get(fid) is None or contracts.fn_simple(fid) in ('fixup_insert', 'operator()') or bool((F.fn.get(fid) or {}).get('lambda_call')), max_depth=30, max_paths=400)
             Sx.concrete_loops = True
             try:
                 outs = Sx.run(fn['id'], this=fr.tree, args=args, state=fr.st)
